@@ -17,10 +17,10 @@ import (
 // another goroutine while the one that ran last is still enabled; environment
 // events are free and do not change who "ran last".
 type E3 struct {
-	Part   string
-	Bound  int                                  // preemption bound (explored completely for 0..Bound)
-	Scens  []any                                       // scenario descriptions (JSON-able; go into replay files)
-	Run    func(w int, scen int, ch *Chooser) Result   // executes one schedule of scenario scen on the real code
+	Part  string
+	Bound int                                       // preemption bound (explored completely for 0..Bound)
+	Scens []any                                     // scenario descriptions (JSON-able; go into replay files)
+	Run   func(w int, scen int, ch *Chooser) Result // executes one schedule of scenario scen on the real code
 }
 
 // E3Choice is one enabled alternative at a scheduling step.
@@ -30,7 +30,7 @@ type E3Choice struct {
 }
 
 type e3step struct {
-	n      int    // number of enabled choices
+	n      int // number of enabled choices
 	chosen int
 	label  string
 	cost   int // preemptions consumed before this step
@@ -158,127 +158,136 @@ func (c *Check) RunE3(e E3) {
 		c.Record(e.Part, r, func() any { return rp })
 		return
 	}
-	var visited sync.Map
-	var mu sync.Mutex
-	cond := sync.NewCond(&mu)
-	var stack []e3task
-	for i := len(e.Scens) - 1; i >= 0; i-- {
-		stack = append(stack, e3task{scen: i})
-	}
-	active := 0
 	var execs, steps, pruned, states, maxLen, maxPre int64
 	stopped := false
 	W := Workers()
-	var wg sync.WaitGroup
-	for w := 0; w < W; w++ {
-		wg.Add(1)
-		go func(w int) {
-			defer wg.Done()
-			first := true
-			for {
-				mu.Lock()
-				for len(stack) == 0 && active > 0 {
-					cond.Wait()
-				}
-				if len(stack) == 0 || stopped {
-					mu.Unlock()
-					cond.Broadcast()
-					return
-				}
-				t := stack[len(stack)-1]
-				stack = stack[:len(stack)-1]
-				active++
-				mu.Unlock()
-
-				ch := &Chooser{prefix: t.prefix, labels: t.labels, visited: &visited, prunedAt: -1, bound: e.Bound}
-				ch.keyPrefix = fmt.Sprintf("%d~", t.scen)
-				r := e.Run(w, t.scen, ch)
-				if ch.Diverged != "" {
-					c.Internal(fmt.Sprintf("%s: replay of prefix %v (scenario %d) diverged: %s; expected labels %q; got %q", e.Part, t.prefix, t.scen, ch.Diverged, t.labels, ch.Trace()))
-				}
-				choices := make([]int, len(ch.steps))
-				labels := make([]string, len(ch.steps))
-				for i, s := range ch.steps {
-					choices[i] = s.chosen
-					labels[i] = s.label
-				}
-				rerun := func() (Result, *Chooser) {
-					c2 := &Chooser{prefix: choices, labels: labels, strict: true, prunedAt: -1, bound: 1 << 30}
-					return e.Run(w, t.scen, c2), c2
-				}
-				if first {
-					first = false
-					if r2, c2 := rerun(); r2.Rule != r.Rule || r2.Outcome != r.Outcome || r2.Sig != r.Sig || c2.Diverged != "" {
-						c.Internal(fmt.Sprintf("%s: nondeterministic execution for %v: %+v vs %+v %s", e.Part, choices, r, r2, c2.Diverged))
+	left := 0
+	// Scenarios are explored in groups of W: state keys carry the scenario index, so nothing is
+	// shared between scenarios and the state cache of a finished group can be dropped (memory).
+	for g0 := 0; g0 < len(e.Scens) && !stopped; g0 += W {
+		g1 := min(g0+W, len(e.Scens))
+		var visited sync.Map
+		var mu sync.Mutex
+		cond := sync.NewCond(&mu)
+		var stack []e3task
+		for i := g1 - 1; i >= g0; i-- {
+			stack = append(stack, e3task{scen: i})
+		}
+		active := 0
+		var wg sync.WaitGroup
+		for w := 0; w < W; w++ {
+			wg.Add(1)
+			go func(w int) {
+				defer wg.Done()
+				first := true
+				for {
+					mu.Lock()
+					for len(stack) == 0 && active > 0 {
+						cond.Wait()
 					}
-				}
-				if r.Sig != "" {
-					for i := 0; i < 4; i++ {
-						if r2, c2 := rerun(); r2.Sig != r.Sig || r2.Outcome != r.Outcome || c2.Diverged != "" {
-							c.Internal(fmt.Sprintf("%s: violation candidate not reproducible for %v: %+v vs %+v %s", e.Part, choices, r, r2, c2.Diverged))
-							r.Sig = ""
+					if len(stack) == 0 || stopped {
+						mu.Unlock()
+						cond.Broadcast()
+						return
+					}
+					t := stack[len(stack)-1]
+					stack = stack[:len(stack)-1]
+					active++
+					mu.Unlock()
+
+					ch := &Chooser{prefix: t.prefix, labels: t.labels, visited: &visited, prunedAt: -1, bound: e.Bound}
+					ch.keyPrefix = fmt.Sprintf("%d~", t.scen)
+					r := e.Run(w, t.scen, ch)
+					if ch.Diverged != "" {
+						c.Internal(fmt.Sprintf("%s: replay of prefix %v (scenario %d) diverged: %s; expected labels %q; got %q", e.Part, t.prefix, t.scen, ch.Diverged, t.labels, ch.Trace()))
+					}
+					choices := make([]int, len(ch.steps))
+					labels := make([]string, len(ch.steps))
+					for i, s := range ch.steps {
+						choices[i] = s.chosen
+						labels[i] = s.label
+					}
+					rerun := func() (Result, *Chooser) {
+						c2 := &Chooser{prefix: choices, labels: labels, strict: true, prunedAt: -1, bound: 1 << 30}
+						return e.Run(w, t.scen, c2), c2
+					}
+					if first {
+						first = false
+						if r2, c2 := rerun(); r2.Rule != r.Rule || r2.Outcome != r.Outcome || r2.Sig != r.Sig || c2.Diverged != "" {
+							c.Internal(fmt.Sprintf("%s: nondeterministic execution for %v: %+v vs %+v %s", e.Part, choices, r, r2, c2.Diverged))
+						}
+					}
+					if r.Sig != "" {
+						for i := 0; i < 4; i++ {
+							if r2, c2 := rerun(); r2.Sig != r.Sig || r2.Outcome != r.Outcome || c2.Diverged != "" {
+								c.Internal(fmt.Sprintf("%s: violation candidate not reproducible for %v: %+v vs %+v %s", e.Part, choices, r, r2, c2.Diverged))
+								r.Sig = ""
+								break
+							}
+						}
+					}
+					end := len(ch.steps)
+					if ch.prunedAt >= 0 {
+						end = ch.prunedAt
+						atomic.AddInt64(&pruned, 1)
+					}
+					if ch.prunedAt < 0 || r.Sig != "" {
+						// a pruned execution re-walks a known suffix: its verdict was (or will be) recorded by the first visitor
+						c.Record(e.Part, r, func() any {
+							m := map[string]any{"choices": choices, "labels": labels, "scenario_index": t.scen, "scenario": e.Scens[t.scen], "preemptions": ch.used}
+							return m
+						})
+					}
+					atomic.AddInt64(&execs, 1)
+					atomic.AddInt64(&steps, int64(len(ch.steps)-len(t.prefix)))
+					atomic.AddInt64(&states, int64(ch.newStates))
+					for {
+						m := atomic.LoadInt64(&maxLen)
+						if int64(len(ch.steps)) <= m || atomic.CompareAndSwapInt64(&maxLen, m, int64(len(ch.steps))) {
 							break
 						}
 					}
-				}
-				end := len(ch.steps)
-				if ch.prunedAt >= 0 {
-					end = ch.prunedAt
-					atomic.AddInt64(&pruned, 1)
-				}
-				if ch.prunedAt < 0 || r.Sig != "" {
-					// a pruned execution re-walks a known suffix: its verdict was (or will be) recorded by the first visitor
-					c.Record(e.Part, r, func() any {
-						m := map[string]any{"choices": choices, "labels": labels, "scenario_index": t.scen, "scenario": e.Scens[t.scen], "preemptions": ch.used}
-						return m
-					})
-				}
-				atomic.AddInt64(&execs, 1)
-				atomic.AddInt64(&steps, int64(len(ch.steps)-len(t.prefix)))
-				atomic.AddInt64(&states, int64(ch.newStates))
-				for {
-					m := atomic.LoadInt64(&maxLen)
-					if int64(len(ch.steps)) <= m || atomic.CompareAndSwapInt64(&maxLen, m, int64(len(ch.steps))) {
-						break
-					}
-				}
-				for {
-					m := atomic.LoadInt64(&maxPre)
-					if int64(ch.used) <= m || atomic.CompareAndSwapInt64(&maxPre, m, int64(ch.used)) {
-						break
-					}
-				}
-				var kids []e3task
-				for i := len(t.prefix); i < end; i++ {
-					s := ch.steps[i]
-					for alt := 0; alt < s.n; alt++ {
-						if alt == s.chosen || s.cost+int(s.pcost[alt]) > e.Bound {
-							continue
+					for {
+						m := atomic.LoadInt64(&maxPre)
+						if int64(ch.used) <= m || atomic.CompareAndSwapInt64(&maxPre, m, int64(ch.used)) {
+							break
 						}
-						p := make([]int, i+1)
-						copy(p, choices[:i])
-						p[i] = alt
-						l := make([]string, i)
-						copy(l, labels[:i])
-						kids = append(kids, e3task{t.scen, p, l})
 					}
+					var kids []e3task
+					for i := len(t.prefix); i < end; i++ {
+						s := ch.steps[i]
+						for alt := 0; alt < s.n; alt++ {
+							if alt == s.chosen || s.cost+int(s.pcost[alt]) > e.Bound {
+								continue
+							}
+							p := make([]int, i+1)
+							copy(p, choices[:i])
+							p[i] = alt
+							l := make([]string, i)
+							copy(l, labels[:i])
+							kids = append(kids, e3task{t.scen, p, l})
+						}
+					}
+					mu.Lock()
+					// deepest alternatives on top: depth-first keeps the stack small
+					stack = append(stack, kids...)
+					active--
+					if c.Expired() {
+						stopped = true
+					}
+					mu.Unlock()
+					cond.Broadcast()
 				}
-				mu.Lock()
-				// deepest alternatives on top: depth-first keeps the stack small
-				stack = append(stack, kids...)
-				active--
-				if c.Expired() {
-					stopped = true
-				}
-				mu.Unlock()
-				cond.Broadcast()
-			}
-		}(w)
+			}(w)
+		}
+		wg.Wait()
+		left = len(stack)
+		if stopped {
+			left += 0
+			c.Cap(fmt.Sprintf("%s: deadline reached with %d unexplored prefixes on the stack and %d of %d scenarios not started (preemption bound %d not completed)", e.Part, len(stack), len(e.Scens)-g1, len(e.Scens), e.Bound))
+		}
 	}
-	wg.Wait()
-	if stopped {
-		c.Cap(fmt.Sprintf("%s: deadline reached with %d unexplored prefixes on the stack (preemption bound %d not completed)", e.Part, len(stack), e.Bound))
-	}
+	_ = left
 	c.AddStates(states, steps, int(maxLen))
 	c.mu.Lock()
 	c.parts = append(c.parts, map[string]any{"part": e.Part, "schedules": execs, "steps": steps, "pruned_by_state_cache": pruned,
